@@ -391,6 +391,11 @@ def simp(t):
         return (t[1][0], tuple(t[1][1][slice(t[2][1], t[3][1], t[4][1])]))      # a slice of a display with constant bounds
     if h == "call" and t[1] == "tuple" and len(t[2]) == 1 and not t[3] and t[2][0][0] == "tup":
         return t[2][0]
+    if h == "call" and t[1] == "len" and len(t[2]) == 1 and not t[3] and t[2][0][0] in ("list", "tup") and not any(x[0] == "star" for x in t[2][0][1]):
+        return C(len(t[2][0][1]))                      # len of a display
+    if h == "call" and t[1] in ("list", "tuple") and len(t[2]) == 1 and not t[3] and t[2][0][0] == "call" and t[2][0][1] == "range" and len(t[2][0][2]) == 1 \
+            and is_const(t[2][0][2][0]) and isinstance(t[2][0][2][0][1], int) and not isinstance(t[2][0][2][0][1], bool) and 0 <= t[2][0][2][0][1] <= 64:
+        return ("list" if t[1] == "list" else "tup", tuple(C(i) for i in range(t[2][0][2][0][1])))      # list(range(n)) for a small constant n
     if h == "call":
         name, args = t[1], t[2]
         if name == "abs" and len(args) == 1:
@@ -1962,6 +1967,12 @@ def classify(loop):
                     ext[seed_cond] = v
                 continue
         # acc = max(acc, e) / min(acc, e)
+        if u[0] == "call" and u[1] in ("max", "min") and len(u[2]) > 2 and not u[3] and list(u[2]).count(acc) == 1:
+            # acc = max(acc, a, b, c): the running maximum of max(a, b, c)
+            rest_ = tuple(x for x in u[2] if x != acc)
+            if not any(mentions_acc(x, loop.id) for x in rest_):
+                out[v] = Fold("EXT", sense=u[1], strict=None, init=init, term=simp(("call", u[1], rest_, ())), cond=None, none_seeded=False, truthy_seed=False)
+                continue
         if u[0] == "call" and u[1] in ("max", "min") and len(u[2]) == 2 and not u[3] and acc in u[2]:
             e = u[2][1] if u[2][0] == acc else u[2][0]
             if not mentions_acc(e, loop.id):
